@@ -366,13 +366,13 @@ def run(ctx, names=None):
     # in-process agents: second start / retry while the first is active (sequential clause, volume)
     acases = None
     if names is None:
-        acases = agent_lib.run_cases(ctx, ["running", "race"], tag="agentrun16")
+        acases = agent_lib.run_cases(ctx, ["running", "race", "frozen"], tag="agentrun16")
         if acases:
             for c in acases:
                 why = agent_lib.monitor(c)
                 if why:
                     ctx.fail("monitor", why, c, cls={"class": "agent-running", "sub": c["sub"]})
-            agent_lib.check_model(ctx, [c for c in acases if c["class"] == "running"], tag="c16_agent")
+            agent_lib.check_model(ctx, [c for c in acases if c["class"] in ("running", "frozen")], tag="c16_agent")
             agent_race(ctx, [c for c in acases if c["class"] == "race"])
     fill_evidence(ctx, scns, rep, classes, acases)
     if ctx.tier == "thorough":
